@@ -264,7 +264,11 @@ type linVerdict struct {
 func describeOp(part string, o porcupine.Operation) string {
 	in := o.Input.(regIn)
 	if in.write {
-		return fmt.Sprintf("[%d,%d] g%d write %s = %q", o.Call, o.Return, o.ClientId, part, in.val)
+		via := ""
+		if m, _ := o.Metadata.(string); m != "" {
+			via = " via " + m
+		}
+		return fmt.Sprintf("[%d,%d] g%d write %s = %q%s", o.Call, o.Return, o.ClientId, part, in.val, via)
 	}
 	out := o.Output.(regOut)
 	return fmt.Sprintf("[%d,%d] g%d read  %s -> (%q,%v) via %v", o.Call, o.Return, o.ClientId, part, out.val, out.ok, o.Metadata)
